@@ -277,7 +277,63 @@ func ruleR13e(h *H) {
 		}
 		return false
 	}
+	// impliesNonNil: a bool method of the receiver that can only return true for a non-nil receiver
+	impliesNonNil := func(g *ssa.Function) bool {
+		if g == nil || len(g.Params) == 0 || g.Blocks == nil || g.Signature.Results().Len() != 1 || g.Signature.Results().At(0).Type().String() != "bool" {
+			return false
+		}
+		recv := g.Params[0]
+		ok := true
+		nret := 0
+		ir.Instrs(g, func(in ssa.Instruction) {
+			ret, isRet := in.(*ssa.Return)
+			if !isRet {
+				return
+			}
+			nret++
+			v := ret.Results[0]
+			if k, isK := v.(*ssa.Const); isK && k.Value != nil && k.Value.String() == "false" {
+				return
+			}
+			// `return n != nil`, or any value returned behind the receiver's own nil test
+			if bo, isBo := v.(*ssa.BinOp); isBo && bo.Op == token.NEQ {
+				if (bo.X == ssa.Value(recv) && isNilConst(bo.Y)) || (bo.Y == ssa.Value(recv) && isNilConst(bo.X)) {
+					return
+				}
+			}
+			for _, t := range ir.NilTests(recv) {
+				if t.NonNil == in.Block() || t.NonNil.Dominates(in.Block()) {
+					return
+				}
+			}
+			ok = false
+		})
+		return ok && nret > 0
+	}
+	guardedByPredicate := func(v ssa.Value, at ssa.Instruction) bool {
+		for _, g := range ir.Guards(at) {
+			cond, taken := g.Cond, g.Taken
+			for {
+				if u, isU := cond.(*ssa.UnOp); isU && u.Op == token.NOT {
+					cond, taken = u.X, !taken
+					continue
+				}
+				break
+			}
+			c, isCall := cond.(*ssa.Call)
+			if !isCall || !taken || len(c.Call.Args) == 0 {
+				continue
+			}
+			if ir.Canon(c.Call.Args[0]) == ir.Canon(v) && impliesNonNil(c.Call.StaticCallee()) {
+				return true
+			}
+		}
+		return false
+	}
 	guardedNonNil := func(v ssa.Value, at ssa.Instruction) bool {
+		if guardedByPredicate(v, at) {
+			return true
+		}
 		for _, t := range ir.NilTests(ir.Canon(v)) {
 			if t.NonNil == at.Block() || t.NonNil.Dominates(at.Block()) {
 				return true
@@ -433,7 +489,7 @@ func ruleR13f(h *H) {
 		if parts, ok := ir.SymString(argOf(s.Call.Common(), 0)); ok && len(parts) > 0 && parts[0].Val == nil {
 			prefix = parts[0].Lit
 		}
-		name := fmt.Sprintf("record stored under %q in %s", prefix, ir.FuncName(s.Fn))
+		name := fmt.Sprintf("record stored under %q", prefix)
 		switch {
 		case isEntryBytes(val) || isEmpty(val):
 			h.OK(rule, name, h.pos(s.Call), "a serialised StorageEntry or an empty value")
